@@ -38,7 +38,19 @@ pub struct Local {
 
 pub fn mk_local() -> Local {
     let sb = Sandbox::new();
-    let ctxs = (0..N_OPT).map(|i| Ctx::new(opts_of(i), &sb).expect("context")).collect();
+    // a context reaches its option set either at creation or - every odd one - by update-engine from the set with
+    // ANSI flipped, with the SAME configuration object and only that setter called (a front-end keeps its object)
+    let ctxs = (0..N_OPT)
+        .map(|i| {
+            if i % 2 == 1 {
+                let mut c = Ctx::new(opts_of(i ^ 8), &sb).expect("context");
+                c.update_with(opts_of(i), &sb, crate::driver::UpdateMode::KeepChanged).expect("update-engine");
+                c
+            } else {
+                Ctx::new(opts_of(i), &sb).expect("context")
+            }
+        })
+        .collect();
     Local { _sb: sb, ctxs, lay: load_layout_json(Layout::Probhat), inv: layout_inverse_opt(Layout::Probhat, true) }
 }
 
